@@ -1100,6 +1100,9 @@ def required_keys(obj: tp.Any) -> frozenset[str]:
     except (NameError, TypeError):
         hints = {}
     for key, hint in hints.items():
+        # (`Annotated[Required[int], "pk"]`: the marker may sit beneath the metadata.)
+        while tp.get_origin(hint) is tp.Annotated:
+            hint = tp.get_args(hint)[0]
         marker = tp.get_origin(hint)
         if marker is te.NotRequired:
             keys.discard(key)
